@@ -9,6 +9,7 @@ from ..common import EPS, pick, shard_count
 LD = np.longdouble
 
 META = {
+    'refill': True,      # cases presented in a reused buffer are followed by a refill of that buffer (runner)
     'rule': ('cases = curve (12 families, magnitudes capped at 1e15, n 3..80 / 5..80 for the L-method, thorough to 2000) x '
              'detector configuration: curvature.knee; dfdt.knee and dfdt.get_knee; menger.knee; lmethod.get_knee x Fit x Cost; '
              'lmethod.knee x Fit x Refinement x limit in 4..12. Reference models: curvature from uts.gradient on the same data; '
